@@ -196,6 +196,8 @@ def run(R, env):
                     nx = shared.unwrap_payload(elem)
                     direct = nx[0] == "call" and nx[1].endswith("Iterator::next") and nx[2][0][0] == "payload" and shared.unwrap_payload(nx[2][0])[0] == "call" and shared.unwrap_payload(nx[2][0])[1].endswith("Iterator::collect") and norm(shared.unwrap_payload(nx[2][0])[2][0]) == norm(rng[0])
                     src_ok = src_ok and direct
+            if not (good_k and v[0] == "agg") and any(s_[0] == "call" and s_[1] == "cw_storage_plus::Map::range" and "migrations::states" in (storage_item_of(s_[2][0]) or "") and ns_of(prog, s_[2][0]) == ns for s_ in list(subterms(k)) + list(subterms(v))):
+                R.set_undecided(["C18.R4"], "the 1.0.0 -> 1.1.0 migration converts the old records in a separate pass (map .. collect) before saving them; only the convert-and-save loop over the old map's range is modelled")
             R.ob("C18.R4", ns + ":same-key-full-range-same-namespace", good_k and src_ok, "new record saved under %s; expected the key of each element of the old map's full range (old item %s, read errors propagated)" % (fmt(k)[:100], old_item), loc=o["loc"], fn=mk)
             old = ("field", elem, "1") if elem is not None else None
             if old is None or v[0] != "agg":
@@ -211,6 +213,7 @@ def run(R, env):
                 good = good and same(agg_field(v, "sequence"), ("field", old, "sequence")) and same(agg_field(v, "status"), ("field", old, "status"))
             R.ob("C18.R4", ns + ":record", good, "migrated record %s; expected {%samount: Coin(old.amount, ibc denom), receiver: staker}" % (fmt(v)[:260], "sequence: old.sequence, status: old.status, " if ns == "inflight" else ""), loc=o["loc"], fn=mk)
             R.ob("C18.R4", ns + ":loop-covers-all", pair_loop(mc, o), "the save is not executed for every element of the collected range", loc=o["loc"], fn=mk)
+        R.clear_undecided(["C18.R4"])
     else:
         R.ob("C18.R4", "path-exists", False, "no V1_0_0ToV1_1_0 migration", fn=key)
     # ------------------------------------------------------------ R5
@@ -239,7 +242,7 @@ def run(R, env):
         R.ob("C18.R5", "1.0.0:write-set", len(ws) == 1 and ns_of(prog, ws[0]["args"][0]) == "config", "writes: %s" % [(ns_of(prog, o["args"][0]), o["op"]) for o in ws], fn=mk)
         oldcfg = lambda t: t[0] == "payload" and is_load(prog, t, "config", "staking") and "v0_4_20" in (storage_item_of(shared.unwrap_payload(t)[2][0]) or "")
         for o in ws:
-            v = o["args"][2]
+            v = shared.written_agg(prog, o)
             leaves = {}
             def walk(t, pre):
                 if t[0] == "agg" and t[1].startswith("staking::state::"):
@@ -274,6 +277,11 @@ def run(R, env):
                         bad.append("%s <- %s" % (leaf, fmt(val)[:80]))
                 else:
                     bad.append("%s (unreviewed leaf)" % leaf)
+            def through_helper(txt_leaf):
+                val_ = leaves.get(txt_leaf.split(" <- ")[0].split(" (")[0])
+                return val_ is not None and any((s_[0] == "call" and (prog.body(s_[1]) is not None or s_[1] in ("std::option::Option::filter", "std::option::Option::then", "std::bool::then", "std::bool::then_some"))) or s_[0] == "closure" for s_ in subterms(val_))
+            if bad and all(through_helper(x) for x in bad):
+                R.set_undecided(["C18.R5"], "the 0.4.20 -> 1.0.0 migration builds some fields through local helpers / combinators that the field-map rule does not model")
             R.ob("C18.R5", "1.0.0:field-map", not bad and len(leaves) >= 18, "leaves not following the reviewed table: %s (of %d leaves)" % (bad, len(leaves)), loc=o["loc"], fn=mk)
             # treasury Some iff send_fees_to_treasury
             sf = lambda t: field_path(t)[1] == ["send_fees_to_treasury"] and oldcfg(field_path(t)[0])
@@ -285,9 +293,15 @@ def run(R, env):
                     if o2["args"][2][0] == "agg":
                         pf = agg_field(o2["args"][2], "protocol_fee_config")
                         ta = agg_field(pf, "treasury_address") if pf is not None and pf[0] == "agg" else None
+                    if ta is not None and ta[0] != "agg":
+                        from engine.analysis import resolve_terms as _rt3
+                        ta = _rt3(prog, ta, 2, None, w.assumptions)
+                    if ta is None or ta[0] != "agg":
+                        R.set_undecided(["C18.R5"], "the migrated treasury_address is computed by a combinator this rule does not model")
                     R.ob("C18.R5", "1.0.0:treasury-%s-iff-send_fees=%s" % (nm, val_), n >= 1 and ta is not None and ta[0] == "agg" and ta[2] == nm, "with send_fees_to_treasury=%s the migrated treasury_address is %s" % (val_, fmt(ta or ("none",))[:80]), loc=o2["loc"], fn=mk)
             # the denom supplied is validated before the save
             vd = [bi for bi, t, a in call_sites(mc, lambda nm: nm.endswith("validate_denom")) if a and shared.msg_field(a[0], "V0_4_20ToV1_0_0", "native_token_denom")]
+            R.clear_undecided(["C18.R5"])
             R.ob("C18.R5", "1.0.0:denom-validated", bool(vd) and all(dominates_(mc, b, o["root_bb"]) for b in vd), "native_token_denom is stored without validate_denom on every path", loc=o["loc"], fn=mk)
 
 
